@@ -163,6 +163,9 @@ func termConsts(fset *token.FileSet, f *ast.File) map[string]string {
 					if se, ok := ce.Fun.(*ast.SelectorExpr); ok && se.Sel.Name == "Terminal" {
 						m[n.Name] = strLit(fset, ce.Args[0])
 					}
+					if id, ok := ce.Fun.(*ast.Ident); ok && id.Name == "Terminal" {
+						m[n.Name] = strLit(fset, ce.Args[0])
+					}
 				}
 			}
 		}
@@ -362,15 +365,22 @@ func transEval(fset *token.FileSet, fd *ast.FuncDecl, consts map[string]int, ter
 					kv := el.(*ast.KeyValueExpr)
 					switch kv.Key.(*ast.Ident).Name {
 					case "Terminal":
-						id, ok := kv.Value.(*ast.Ident)
-						if !ok {
-							fail("%s: Terminal must be a named constant", where(fset, kv))
+						switch tv := kv.Value.(type) {
+						case *ast.Ident:
+							k, ok := terms[tv.Name]
+							if !ok {
+								fail("%s: unknown terminal constant %s", where(fset, kv), tv.Name)
+							}
+							kind = k
+						case *ast.CallExpr: // Terminal("...")
+							fn, ok := tv.Fun.(*ast.Ident)
+							if !ok || fn.Name != "Terminal" || len(tv.Args) != 1 {
+								fail("%s: Terminal must be a named constant or Terminal(\"...\")", where(fset, kv))
+							}
+							kind = strLit(fset, tv.Args[0])
+						default:
+							fail("%s: Terminal must be a named constant or Terminal(\"...\")", where(fset, kv))
 						}
-						k, ok := terms[id.Name]
-						if !ok {
-							fail("%s: unknown terminal constant %s", where(fset, kv), id.Name)
-						}
-						kind = k
 					case "Lexeme":
 						if mode == "fixed" {
 							fixed = strLit(fset, kv.Value)
